@@ -2,6 +2,7 @@
 from __future__ import annotations
 
 import copy
+import hashlib
 import itertools
 import json
 import math
@@ -10,6 +11,7 @@ from fractions import Fraction
 import numpy as np
 
 from harness import core, gen_scheme
+from harness.props import _c06_extract as ex
 from harness.props import _c06_models as M
 
 PROP = "C06"
@@ -49,6 +51,37 @@ REQUIRED_THEOREMS = [
     "involved_mem",
     "decay_path_order_dependent_counterexample",
     "isSequential_perm_invariant_partial",
+    # wave 3: full models, regenerated label tables, linked groups (and helpers that were public before)
+    "datasetMatrix_shaped",
+    "lsExact_isNormalSol",
+    "entry_eq_slice",
+    "artifactLabel_inj",
+    "baseline_guide_labels",
+    "compartment_normalized_concentration_paired",
+    "normSum_perm",
+    "ls_perm_equivariant_by",
+    "fit_unchanged_under_permutation_by",
+    "global_matrix_entry",
+    "full_matrix_entry",
+    "full_model_perm",
+    "full_clp_by_label",
+    "full_clp_keyerror",
+    "full_model_fit_perm",
+    "generated_osc_labels",
+    "generated_osc_table",
+    "osc_columns_match_labels_generated",
+    "generated_spectral_table",
+    "spectral_columns_match_labels_generated",
+    "generated_artifact_table",
+    "artifact_columns_match_labels_generated",
+    "generated_baseline_guide_tables",
+    "generated_decay_labels",
+    "generated_osc_selections",
+    "generated_artifact_baseline_selections",
+    "unionLabels_perm",
+    "linked_clps_by_label",
+    "alignMatrices_perm",
+    "linked_fit_perm",
 ]
 TRUSTED = [
     "hand-written model lean/GlotaranModel/C06.lean (on top of C02.lean: combine, datasetMatrix) of "
@@ -61,6 +94,9 @@ TRUSTED = [
     "are C05/C07's subject)",
     "xarray label-based selection (.sel) and alignment; numpy; scipy.special.erf (closed form of the IRF-convolved oscillation); "
     "LAPACK least squares (fit comparisons are skipped when the matrix is ill-conditioned)",
+    "translator harness/props/_c06_extract.py (ast pattern recogniser): label expressions of calculate_matrix, column stores of the "
+    "oscillation / artifact / spectral kernels and the clp_label selections of finalize_data are regenerated into "
+    "lean/GlotaranModel/Generated/C06.lean on every run; cross-checked on every pipeline case by the `gen` operations of the driver",
 ]
 ASSUMPTIONS = [
     "labels of one megacomplex are distinct; oscillation labels/frequencies/rates have equal lengths (the model validator "
@@ -70,9 +106,19 @@ ASSUMPTIONS = [
     "decay_associated_spectra / a_matrix / rate / lifetime are indexed by a component *number*; components are matched by rate",
     "twins whose difference is caused by KMatrix.is_sequential misclassifying a scheme (D4, property C04) are classified "
     "separately (known finding)",
+    "full models: the global matrix is index independent (2-D); clps of a rank-deficient Kronecker matrix are not compared (not unique)",
 ]
 RULE = (
-    "five streams. (A) combine_megacomplex_matrices on integer matrices: every ordered pair of label lists over a pool "
+    "nine streams. (F) full models on table megacomplexes, exact regime: 1-3 megacomplexes (2-D / 3-D) x 1-3 global megacomplexes "
+    "with shared labels, labels occurring on both sides, scales, optional weights, well conditioned by construction: one-evaluation "
+    "optimize() against the model's full-model path (global matrix, matrix, full matrix by label pair, exact least-squares clps read "
+    "with fullClpAt, residual) and against the by-label statement (scaled sums, fitted data recomposed over all label pairs, "
+    "orthogonality); twins over every order of the global megacomplexes x every order of their labels, model side sampled (thorough: "
+    "all when <= 60). (G) builtin full models (decay-type x spectral(+baseline), spectral x decay-type; IRF none / gaussian / shift / "
+    "dispersion): matrix and global_matrix by label = dataset matrices of the two half datasets, both halves through (C), permuted twin. "
+    "(I) every builtin type with 1, 2, 3 components on every run: real labels and columns vs hand-written table vs table evaluated from "
+    "the regenerated descriptors. (L) linked groups of 2-3 datasets with partly shared labels: every dataset order (quick: 2 sampled of "
+    "the 5 non-identity orders of three datasets). (A) combine_megacomplex_matrices on integer matrices: every ordered pair of label lists over a pool "
     "(quick: 3 labels, lists <= 3; thorough: 4 labels, lists <= 4) x the four rank combinations 2-D/3-D, plus random shapes, with "
     "probes of the model's by-label reader on the real result (present / absent labels, in- and out-of-range index and row); "
     "(B) calculate_dataset_matrix with 1-3 table megacomplexes, <= 4 labels each, scales, 2-D/3-D mix: every permutation of the "
@@ -91,6 +137,26 @@ RULE = (
     "involved; distinct = distinct input"
 )
 RTOL = 1e-9
+GEN_FILE = core.LEAN / "GlotaranModel" / "Generated" / "C06.lean"
+
+
+def generate(ck):
+    """regenerate lean/GlotaranModel/Generated/C06.lean from the source text of VERIF_REPO"""
+    labels, fills, sels, calls = ex.extract_all(core.REPO)
+    text = ex.render(labels, fills, sels, calls)
+    GEN_FILE.parent.mkdir(parents=True, exist_ok=True)
+    if not GEN_FILE.exists() or GEN_FILE.read_text() != text:
+        GEN_FILE.write_text(text)
+    unknown = [k for k, v in list(labels.items()) + list(fills.items()) if v[0] == "unknown"]
+    return [{
+        "table": "label expressions of calculate_matrix, column fill patterns of the kernels, labels selected by finalize_data "
+                 "(lean/GlotaranModel/Generated/C06.lean)",
+        "source": sorted(ex.source_sha1(core.REPO)),
+        "source_sha1": ex.source_sha1(core.REPO),
+        "sha1": hashlib.sha1(text.encode()).hexdigest(),
+        "label_expressions": sorted(labels), "fill_descriptors": sorted(fills),
+        "not_recognised": unknown,
+    }]
 
 
 # ======================================================================================================
@@ -555,6 +621,7 @@ class RefColumns:
         s["megacomplex"] = [["ref", mc_entry]]
         d = copy.deepcopy(self.d)
         d["megacomplex"], d["megacomplex_scale"] = ["ref"], None
+        d["global_megacomplex"], d["global_megacomplex_scale"] = None, None
         if ic is not None:
             d["initial_concentration"] = ic
         s["dataset"] = [[self.dlabel, d]]
@@ -653,6 +720,7 @@ class RefColumns:
             s["megacomplex"] = [["ref", mc]]
             d = copy.deepcopy(self.d)
             d["megacomplex"], d["megacomplex_scale"] = ["ref"], None
+            d["global_megacomplex"], d["global_megacomplex_scale"] = None, None
             s["dataset"] = [[self.dlabel, d]]
             labels, mat = self._real(s)
             self.cache[key] = {l: mat[..., j] for j, l in enumerate(labels)}
@@ -979,6 +1047,8 @@ def check_pipeline(ck, batch, spec, tag):
         for name in d["megacomplex"]:
             lines.append(table_line(spec, dlabel, name, dm))
             names.append(name)
+        # the same operations answered from the descriptors regenerated from the source text (Generated/C06.lean)
+        lines += ["gen " + l for l in lines]
 
         def judge_inner(ans, names=names, d=d, dm=dm, rl=rl, rm=rm, per_mc=per_mc, case=case, ref=ref, dlabel=dlabel, got=got, d4=d4):
             mtables = {}
@@ -1001,6 +1071,13 @@ def check_pipeline(ck, batch, spec, tag):
                 if mtables[name][0] != ls:
                     ck.disagree("table-labels:" + mc["type"], f"megacomplex {name!r}: labels {ls} (implementation) vs {mtables[name][0]} (model)",
                                 {**case, "megacomplex": name})
+                    return
+                gen = parse_table(ans[len(names) + names.index(name)])
+                ck.count("C:generated-table-checked")
+                if gen is None or gen[0] != ls or gen[1] != mtables[name][1]:
+                    ck.disagree("generated-table:" + mc["type"],
+                                f"megacomplex {name!r}: the table evaluated from the regenerated descriptors is {gen}; implementation "
+                                f"labels {ls}, hand-written model {mtables[name]}", {**case, "megacomplex": name})
                     return
                 if len(mtables[name][1]) != mat.shape[-1]:
                     ck.disagree("table-width:" + mc["type"], f"megacomplex {name!r}: {mat.shape[-1]} columns vs {len(mtables[name][1])} descriptors",
@@ -1131,6 +1208,28 @@ def gen_focus(rng, i):
     return M.gen_spec(rng, types=types, irf_kind=irf)
 
 
+def stream_introspection(ck, batch):
+    """every builtin type with 1, 2 and 3 declared components, with and without IRF where the type allows it: the labels
+    (and every column) the real calculate_matrix returns against the hand-written table and against the table evaluated
+    from the regenerated descriptors — deterministic coverage of every type on every run"""
+    rng = ck.rng
+    n_specs = 0
+    for n in (1, 2, 3):
+        for typ, irfs in (("damped-oscillation", ("none", "gaussian")), ("pfid", ("gaussian",)), ("decay-parallel", ("none", "gaussian")),
+                          ("decay-sequential", ("none",)), ("decay", ("none",)), ("spectral", ("none",)),
+                          ("coherent-artifact", ("gaussian",)), ("baseline", ("none",)), ("clp-guide", ("none",))):
+            for irf in irfs:
+                if typ in ("baseline", "clp-guide") and n > 1:
+                    continue
+                spec = M.introspection_spec(rng, typ, n, irf)
+                check_pipeline(ck, batch, spec, "introspection")
+                ck.count(f"I:type={typ}:components={n}")
+                n_specs += 1
+    batch.flush(ck)
+    flush_post(ck, batch)
+    ck.extra["introspection"] = {"specs": n_specs, "components": [1, 2, 3], "types": 9}
+
+
 def stream_pipeline(ck, batch):
     rng = ck.rng
     for i in range(ck.n(110, 1500)):
@@ -1164,7 +1263,10 @@ def conditioning(ds):
     m = np.asarray(ds.matrix.values, dtype=np.float64)
     mats = m if m.ndim == 3 else m[None]
     try:
-        return float(max(np.linalg.cond(x) for x in mats))
+        c = float(max(np.linalg.cond(x) for x in mats))
+        if "global_matrix" in ds:       # full model: the solver sees the Kronecker product
+            c *= float(np.linalg.cond(np.asarray(ds.global_matrix.values, dtype=np.float64)))
+        return c
     except Exception:
         return float("inf")
 
@@ -1333,11 +1435,77 @@ def self_consistency(ck, spec, dlabel, ds, case):
     return out
 
 
+def self_consistency_full(ck, spec, dlabel, ds, case):
+    """a dataset with a global model: labelled result variables against the matrix / global matrix column of the same
+    label, and the fitted data recomposed from clp.sel(global_clp_label=G, clp_label=L) over all label pairs"""
+    out = []
+    d = dict(spec["dataset"])[dlabel]
+    ml = [str(x) for x in ds.matrix.coords["clp_label"].values]
+    gl = [str(x) for x in ds.global_matrix.coords["global_clp_label"].values]
+    if set(ds.clp.dims) != {"global_clp_label", "clp_label"} or [str(x) for x in ds.clp.coords["clp_label"].values] != ml or \
+            [str(x) for x in ds.clp.coords["global_clp_label"].values] != gl:
+        out.append(("full-clp-coordinates", "clp of a full-model dataset does not carry the (global_clp_label, clp_label) coordinates "
+                    "of global_matrix / matrix"))
+        return out
+    mdim, gdim = d.get("model_dim", "time"), d.get("global_dim", "spectral")
+
+    def mcol(l):        # (model,) or (global, model)
+        c = ds.matrix.sel(clp_label=l)
+        return np.asarray(c.transpose(*([gdim, mdim] if c.ndim == 2 else [mdim])).values, dtype=np.float64)
+
+    def gcol(g):
+        return np.asarray(ds.global_matrix.sel(global_clp_label=g).values, dtype=np.float64)
+    sides = (("model", d["megacomplex"], "species", mdim, mcol, ml), ("global", d["global_megacomplex"], None, gdim, gcol, gl))
+    for side, names, _, dim, colf, labels in sides:
+        mcs = [(n, dict(spec["megacomplex"])[n]) for n in names]
+        as_global = side == "global"
+        if any(m["type"].startswith("decay") for _, m in mcs):
+            sdim = "decay_species" if as_global else "species"
+            if sdim not in ds.coords or "species_concentration" not in ds:
+                out.append(("result-variable-missing:species_concentration", f"no {sdim} / species_concentration in the full-model result"))
+                continue
+            for sp in [str(x) for x in ds.coords[sdim].values]:
+                v = ds["species_concentration"].sel({sdim: sp})
+                v = np.asarray(v.transpose(*[x for x in (gdim, mdim) if x in v.dims]).values, dtype=np.float64) if not as_global \
+                    else np.asarray(v.values, dtype=np.float64)
+                if sp not in labels or not close(v, colf(sp), 1e-12):
+                    out.append(("full-species-concentration-not-matrix-column", f"species_concentration under {sp!r} is not the "
+                                f"{'global_matrix' if as_global else 'matrix'} column {sp!r}"))
+        if any(m["type"] == "spectral" for _, m in mcs):
+            sdim = "spectral_species" if as_global else "species"
+            if sdim not in ds.coords or "species_spectra" not in ds:
+                out.append(("result-variable-missing:species_spectra", f"no {sdim} / species_spectra in the full-model result"))
+                continue
+            for sp in [str(x) for x in ds.coords[sdim].values]:
+                v = np.asarray(ds["species_spectra"].sel({sdim: sp}).values, dtype=np.float64)
+                if sp not in labels or not close(v, colf(sp), 1e-12):
+                    out.append(("full-species-spectra-not-matrix-column", f"species_spectra under {sp!r} is not the "
+                                f"{'global_matrix' if as_global else 'matrix'} column {sp!r}"))
+    fitted = np.zeros((ds.sizes[mdim], ds.sizes[gdim]))
+    cmax = 0.0
+    for g in gl:
+        for l in ml:
+            c = float(ds.clp.sel(global_clp_label=g, clp_label=l))
+            cmax = max(cmax, abs(c))
+            mc = mcol(l)
+            fitted += c * (mc.T if mc.ndim == 2 else mc[:, None]) * gcol(g)[None, :]
+    real = np.asarray(ds.fitted_data.transpose(mdim, gdim).values, dtype=np.float64)
+    amax = max(1.0, float(np.max(np.abs(ds.matrix.values))) * float(np.max(np.abs(ds.global_matrix.values))))
+    # (a rank-deficient matrix is outside this check: variable projection then returns a projection residual together with
+    #  clps from a singular triangular solve — the recorded finding `underdetermined VP` of C14, nothing about labels)
+    cond = conditioning(ds)
+    if cond < 1e8 and np.all(np.isfinite(fitted)) and \
+            float(np.max(np.abs(fitted - real))) > 1e-9 * max(1.0, cmax) * amax * len(gl) * len(ml) * max(1.0, cond):
+        out.append(("full-fitted-not-recomposed-by-label", "fitted_data is not the sum over the label pairs (G, L) of "
+                    "clp.sel(global_clp_label=G, clp_label=L) x global_matrix.sel(G) x matrix.sel(L)"))
+    return out
+
+
 def check_result_selection(ck, batch, spec, res, case):
     """correspondence for the selection of result variables by label: species list (first seen) and the selected
     matrix / clp columns of the real result against the model's `allSpecies`, `selectCols`, `selectVec`"""
     for dlabel, d in spec["dataset"]:
-        if dlabel not in res.data:
+        if dlabel not in res.data or d.get("global_megacomplex"):
             continue
         ds = res.data[dlabel]
         labels = [str(x) for x in ds.matrix.coords["clp_label"].values]
@@ -1440,6 +1608,13 @@ def check_twin(ck, spec, tag, what=None, nfev=1, twin=None, batch=None):
     except Exception as e:
         ck.violation(f"matrix-raises:{type(e).__name__}:{tkey}", f"calculating a dataset matrix raised {type(e).__name__}: {str(e)[:160]}", case)
         return
+    if len(ma) >= 2:
+        sets = [set(v[0]) for v in ma.values()]
+        inter, union = set.intersection(*sets), set.union(*sets)
+        ck.count("D:linked-datasets:labels=" + ("disjoint" if not any(a & b for i, a in enumerate(sets) for b in sets[i + 1:])
+                                                else "equal" if inter == union else "partly-shared"))
+        if [l for l, _ in spec["dataset"]] != [l for l, _ in twin["dataset"]]:
+            ck.count("D:linked-datasets:dataset-order-permuted")
     for dl in ma:
         la, xa = ma[dl]
         lb, xb = mb[dl]
@@ -1453,6 +1628,22 @@ def check_twin(ck, spec, tag, what=None, nfev=1, twin=None, batch=None):
             ck.violation(key, f"dataset {dl!r}: the matrix column under label {bad[0]!r} depends on the declaration order "
                          f"(permuted: {what_s}; {len(bad)} labels differ, max abs difference "
                          f"{max(float(np.max(np.abs(ca[l] - cb[l]))) for l in bad):.3g})", {**case, "dataset": dl, "label": bad[0]})
+            return
+    # global matrices of full-model datasets
+    try:
+        ga, gb = M.global_matrices(spec), M.global_matrices(twin)
+    except Exception as e:
+        ck.violation(f"matrix-raises:{type(e).__name__}:{tkey}", f"calculating a global matrix raised {type(e).__name__}: {str(e)[:160]}", case)
+        return
+    for dl in ga:
+        la, xa = ga[dl]
+        lb, xb = gb[dl]
+        ck.count("D:full-model-dataset")
+        ca, cb = np_cols(la, xa), np_cols(lb, xb)
+        bad = sorted(la) != sorted(lb) or [l for l in la if not close(ca[l], cb[l], 1e-8)]
+        if bad:
+            ck.violation("twin-global-matrix-column:" + tkey, f"dataset {dl!r}: the global matrix column under "
+                         f"{bad if bad is True else bad[0]!r} depends on the declaration order (permuted: {what_s})", {**case, "dataset": dl})
             return
     # result level
     ra, ea = run_result(spec, nfev)
@@ -1473,7 +1664,8 @@ def check_twin(ck, spec, tag, what=None, nfev=1, twin=None, batch=None):
             ck.violation("twin-dataset-missing", f"no result for dataset {dl!r}", case)
             return
         for r, s in ((ra, spec), (rb, twin)):
-            for key, what_txt in self_consistency(ck, s, dl, r.data[dl], case):
+            sc = self_consistency_full if dict(s["dataset"])[dl].get("global_megacomplex") else self_consistency
+            for key, what_txt in sc(ck, s, dl, r.data[dl], case):
                 ck.violation("result:" + key, f"dataset {dl!r}: {what_txt}", {**case, "dataset": dl, "order": "first" if r is ra else "permuted"})
         for key, what_txt in compare_datasets(ck, ra.data[dl], rb.data[dl], case, what_s, cond):
             if d4:
@@ -1494,7 +1686,7 @@ def check_twin(ck, spec, tag, what=None, nfev=1, twin=None, batch=None):
 
 def stream_twins(ck, batch):
     rng = ck.rng
-    n = ck.n(80, 1200)
+    n = ck.n(72, 1200)
     kinds = [None, {"megacomplexes"}, {"oscillations", "compartments", "shapes"}, {"sections", "datasets"}, {"k_entries", "k_matrices", "compartments"}]
     for i in range(n):
         spec = gen_focus(rng, i)
@@ -1506,6 +1698,104 @@ def stream_twins(ck, batch):
             batch.flush(ck)
     check_twin(ck, M.guide_spec(rng), "clp-guide", batch=batch)
     batch.flush(ck)
+
+
+def linked_spec(rng, n_ds):
+    """`n_ds` datasets on one global axis in one (linked) group whose clp labels are partly shared (neither the same
+    label set everywhere nor pairwise disjoint); well separated rates so that the clps can be compared"""
+    b = M.SpecBuilder(rng)
+    spec = b.spec
+    spec["groups"] = {"default": {"link_clp": True, "residual_function": "variable_projection"}}
+    g = [600.0 + 20.0 * i for i in range(rng.randint(2, 3))]
+    irf = rng.choice(["none", "gaussian"])
+    pool = rng.sample(M.COMP_POOL, 4)
+    chosen = []
+    for _ in range(50):
+        chosen = [rng.sample(pool, rng.randint(2, 3)) for _ in range(n_ds)]
+        sets = [set(c) for c in chosen]
+        if any(a & c for i, a in enumerate(sets) for c in sets[i + 1:]) and set.intersection(*sets) != set.union(*sets):
+            break
+    for di in range(n_ds):
+        dlabel = ["d1", "d2", "d10"][di]
+        t = [-0.25 + 0.375 * i for i in range(rng.randint(12, 14))]
+        comps = chosen[di]
+        rates = rng.sample([0.25, 1.0, 4.0], len(comps))
+        mname = f"m{len(spec['megacomplex']) + 1}"
+        typ = rng.choice(["decay-parallel", "decay-parallel", "decay-sequential"])
+        spec["megacomplex"].append([mname, {"type": typ, "compartments": comps, "rates": [b.par(r + 0.0625 * di, "k") for r in rates]}])
+        d = {"megacomplex": [mname], "megacomplex_scale": None, "irf": b.irf(irf, len(g)) if di == 0 or irf == "none" else spec["irf"][0][0],
+             "initial_concentration": None, "model_dim": "time", "global_dim": "spectral", "model_axis": t, "global_axis": list(g)}
+        if rng.random() < 0.4:
+            bname = f"m{len(spec['megacomplex']) + 1}"
+            spec["megacomplex"].append([bname, {"type": "baseline", "dimension": "time"}])
+            d["megacomplex"].append(bname)
+        if rng.random() < 0.3 and di > 0:
+            d["global_axis"] = d["global_axis"][:-1] if len(g) > 2 else d["global_axis"]
+        d["data"] = [[round(rng.uniform(-1, 3), 3) for _ in d["global_axis"]] for _ in t]
+        spec["dataset"].append([dlabel, d])
+    return spec
+
+
+def shared_clp_oracle(ck, spec, res, case):
+    """linked group: datasets that share a clp label share its value at every common global-axis point — by label"""
+    das = {dl: res.data[dl].clp for dl, _ in spec["dataset"] if dl in res.data}
+    names = list(das)
+    for i, a in enumerate(names):
+        for b in names[i + 1:]:
+            ga = dict(spec["dataset"])[a].get("global_dim", "spectral")
+            common = sorted(set(das[a].coords["clp_label"].values.tolist()) & set(das[b].coords["clp_label"].values.tolist()))
+            for l in common:
+                xa, xb = das[a].sel(clp_label=l), das[b].sel(clp_label=l)
+                pts = sorted(set(xa.coords[ga].values.tolist()) & set(xb.coords[ga].values.tolist()))
+                va = np.asarray(xa.sel({ga: pts}).values, dtype=np.float64)
+                vb = np.asarray(xb.sel({ga: pts}).values, dtype=np.float64)
+                ck.count("L:shared-clp-checked")
+                if not np.array_equal(va, vb):
+                    ck.violation("linked-clp-not-shared-by-label", f"linked datasets {a!r} and {b!r} report different values for the "
+                                 f"shared clp label {l!r} at common global-axis points", {**case, "label": l})
+                    return
+
+
+def stream_linked(ck, batch):
+    """linked groups whose datasets share only part of their labels: every order of the datasets (2 or 3 datasets), clps
+    matrices, residuals compared by label; the model's union label list against the labels the result reports"""
+    rng = ck.rng
+    n = 0
+    for i in range(ck.n(6, 60)):
+        n_ds = 2 if i % 3 else 3
+        spec = linked_spec(rng, n_ds)
+        if spec is None:
+            continue
+        res, err = run_result(spec)
+        if res is None:
+            if err != "dof-zero":
+                ck.violation("optimize-raises:" + err.split(":")[0] + ":linked", f"optimize() of a linked group raised {err}", {"kind": "twin", "spec": spec, "nfev": 1})
+            continue
+        ck.count(f"L:linked-group:datasets={n_ds}")
+        shared_clp_oracle(ck, spec, res, {"kind": "twin", "spec": spec, "nfev": 1})
+        # model: the union label list (first seen first) contains exactly the labels of the datasets, once
+        mats = M.dataset_matrices(spec)
+        per = [mats[dl][0] for dl, _ in spec["dataset"]]
+
+        def judge(ans, per=per, spec=spec):
+            got = [core.dec(x) for x in core.parse_tree(ans[0][5:])[0]] if ans[0].startswith("strs ") else None
+            want = []
+            for ls in per:
+                want += [l for l in ls if l not in want]
+            if got != want:
+                ck.disagree("union-labels", f"union of the clp labels of a linked group: first-seen union {want}, model {got}",
+                            {"kind": "twin", "spec": spec, "nfev": 1})
+        batch.add([f"unionlabels {core.lst(core.strs(c) for c in per)}"], judge)
+        orders = [o for o in itertools.permutations(range(n_ds)) if list(o) != list(range(n_ds))]
+        if ck.quick and len(orders) > 2:
+            orders = rng.sample(orders, 2)
+        for o in orders:
+            twin = copy.deepcopy(spec)
+            twin["dataset"] = [twin["dataset"][k] for k in o]
+            check_twin(ck, spec, "linked-dataset-order", twin=twin, batch=batch)
+            n += 1
+    batch.flush(ck)
+    ck.extra["linked_partly_shared"] = {"dataset_order_twins": n}
 
 
 def stream_exhaustive_permutations(ck):
@@ -1592,6 +1882,374 @@ def stream_exhaustive_permutations(ck):
 
 
 # ======================================================================================================
+# stream F — full models (global megacomplexes) on table megacomplexes: exact regime, by label *pair*
+# ======================================================================================================
+def full_scheme_spec(case):
+    """case {"mcs", "gmcs", "n_model", "n_global", "data", "weight"} -> spec of harness.gen_scheme"""
+    params = {"p.1": 1.0}
+
+    def par(v):
+        label = f"p.{len(params) + 1}"
+        params[label] = float(v)
+        return label
+
+    def conv(mcs):
+        scaled = any(mc.get("scale") is not None for mc in mcs)
+        return [{"labels": list(mc["labels"]), "index_dependent": np.asarray(mc["base"]).ndim == 3, "base": mc["base"], "pars": None,
+                 "scale": par(mc["scale"] if mc.get("scale") is not None else 1.0) if scaled else None} for mc in mcs]
+    ds = {"label": "d1", "group": "default", "global_axis": [float(i + 1) for i in range(case["n_global"])],
+          "model_axis": [float(i) for i in range(case["n_model"])], "dims_order": case.get("dims_order", "mg"),
+          "data": case["data"], "weight": case.get("weight"), "scale": None, "mcs": conv(case["mcs"]), "gmcs": conv(case["gmcs"])}
+    return {"groups": {"default": {"link_clp": False, "residual_function": "variable_projection"}}, "clp_link_tolerance": 0.0,
+            "clp_link_method": "nearest", "parameters": params, "datasets": [ds], "constraints": [], "relations": [],
+            "penalties": [], "weights": []}
+
+
+def real_full(case):
+    """the API-level outputs of a one-evaluation optimize() of a full-model dataset, read by label"""
+    from glotaran.optimization.optimize import optimize
+    scheme, _, _, _ = gen_scheme.build(full_scheme_spec(case))
+    res = optimize(scheme, verbose=False, raise_exception=True)
+    ds = res.data["d1"]
+    out = {"gl": [str(x) for x in ds.global_matrix.coords["global_clp_label"].values],
+           "ml": [str(x) for x in ds.matrix.coords["clp_label"].values]}
+    out["G"] = {g: np.asarray(ds.global_matrix.sel(global_clp_label=g).values, dtype=np.float64) for g in out["gl"]}
+    mdims = ("global", "model") if ds.matrix.ndim == 3 else ("model",)
+    out["M"] = {l: np.asarray(ds.matrix.sel(clp_label=l).transpose(*mdims).values, dtype=np.float64) for l in out["ml"]}
+    out["clp_dims"] = tuple(ds.clp.dims)
+    out["clp_coords"] = ([str(x) for x in ds.clp.coords["global_clp_label"].values], [str(x) for x in ds.clp.coords["clp_label"].values])
+    out["clp"] = {(g, l): float(ds.clp.sel(global_clp_label=g, clp_label=l)) for g in out["gl"] for l in out["ml"]}
+    out["clp_raw"] = np.asarray(ds.clp.values, dtype=np.float64)
+    wres = ds.weighted_residual if "weighted_residual" in ds else ds.residual
+    out["wres"] = np.asarray(wres.transpose("model", "global").values, dtype=np.float64)
+    out["res"] = np.asarray(ds.residual.transpose("model", "global").values, dtype=np.float64)
+    out["fitted"] = np.asarray(ds.fitted_data.transpose("model", "global").values, dtype=np.float64)
+    return out
+
+
+def full_statement(case):
+    """the statement, independent of the Lean model: by-label global / model matrix (exact Fractions) and the full
+    matrix by label pair (row g * n_model + m) as float arrays"""
+    gcols, _ = statement_dataset(case["gmcs"], 1)
+    mcols, any3 = statement_dataset(case["mcs"], case["n_global"])
+    return gcols, mcols, any3
+
+
+def full_matrix_by_pair(gcols, mcols, any3, n_model, n_global, weight):
+    """{(G, L): column of the full matrix} from by-label columns (floats)"""
+    out = {}
+    for G, gc in gcols.items():
+        for L, mc in mcols.items():
+            col = np.zeros(n_global * n_model)
+            for g in range(n_global):
+                for m in range(n_model):
+                    w = 1.0 if weight is None else float(weight[m][g])
+                    col[g * n_model + m] = w * float(gc[g]) * float(mc[g][m] if any3 else mc[m])
+            out[(G, L)] = col
+    return out
+
+
+def full_conditioning(case):
+    gcols, mcols, any3 = full_statement(case)
+    cols = full_matrix_by_pair(gcols, mcols, any3, case["n_model"], case["n_global"], case.get("weight"))
+    a = np.stack([cols[k] for k in sorted(cols)], axis=1)
+    if a.shape[0] < a.shape[1] or np.linalg.matrix_rank(a) < a.shape[1]:
+        return float("inf")
+    return float(np.linalg.cond(a))
+
+
+def check_full_table(ck, batch, case, tag, reference=None):
+    """one declaration order of a full-model dataset; `reference` = the by-label outputs of another order (twin)"""
+    try:
+        real = real_full(case)
+    except Exception as e:
+        ck.violation("full-model-raises:" + type(e).__name__, f"optimize() of a full-model dataset raised {type(e).__name__}: {str(e)[:160]}", case)
+        return None
+    n_model, n_global, weight = case["n_model"], case["n_global"], case.get("weight")
+    ck.case(("full", json.dumps(case, sort_keys=True)), True)
+    ck.count("F:" + tag)
+    ck.count(f"F:global-megacomplexes={len(case['gmcs'])}")
+    ck.count(f"F:megacomplexes={len(case['mcs'])}")
+    ck.count("F:weighted" if weight is not None else "F:unweighted")
+    gcols, mcols, any3 = full_statement(case)
+    ck.count("F:model-rank=3" if any3 else "F:model-rank=2")
+    ck.count("F:global-scaled" if any(mc.get("scale") is not None for mc in case["gmcs"]) else "F:global-unscaled")
+    shared = set(gcols) & set(mcols)
+    ck.count("F:label-in-both-dimensions" if shared else "F:labels-disjoint")
+    cond = full_conditioning(case)
+    # ---- oracle: the statement on the real outputs, by label (no Lean model involved) -------------------------------
+    ck.oracle_evals += 1
+    if len(set(real["gl"])) != len(real["gl"]) or set(real["gl"]) != set(gcols):
+        ck.violation("global-matrix-labels", f"global_clp_label {real['gl']} is not the duplicate-free union of the labels of the "
+                     f"global megacomplexes", case)
+        return None
+    if set(real["ml"]) != set(mcols) or real["clp_coords"] != (real["gl"], real["ml"]) or \
+            set(real["clp_dims"]) != {"global_clp_label", "clp_label"}:
+        ck.violation("full-clp-coordinates", f"clp has dims {real['clp_dims']} with coordinates {real['clp_coords']}; the matrices "
+                     f"carry global_clp_label={real['gl']}, clp_label={real['ml']}", case)
+        return None
+    for g in real["gl"]:
+        w = gcols[g]
+        if real["G"][g].shape != w.shape or not all(Fraction(float(x)) == y for x, y in zip(real["G"][g].ravel().tolist(), w.ravel().tolist())):
+            ck.violation("global-matrix-column-not-scaled-sum", f"global_matrix under {g!r} is not the sum of the (scaled) columns the "
+                         f"global megacomplexes contribute under {g!r}", {**case, "label": g, "observed": real["G"][g].tolist()})
+            return None
+    for l in real["ml"]:
+        w = mcols[l]
+        if real["M"][l].shape != w.shape or not all(Fraction(float(x)) == y for x, y in zip(real["M"][l].ravel().tolist(), w.ravel().tolist())):
+            ck.violation("full-model-matrix-column", f"matrix under {l!r} of a full-model dataset is not the sum of the megacomplex columns", {**case, "label": l})
+            return None
+    # recomposition by label pair: fitted = sum_{G,L} clp(G, L) * global_matrix(G) x matrix(L); residual = data - fitted
+    fitted = np.zeros((n_model, n_global))
+    for g in real["gl"]:
+        for l in real["ml"]:
+            mc = real["M"][l]
+            fitted += real["clp"][(g, l)] * (mc.T if mc.ndim == 2 else np.outer(mc, np.ones(n_global))) * real["G"][g][None, :]
+    data = np.asarray(case["data"], dtype=np.float64)
+    scale = max(1.0, float(np.max(np.abs(data))))
+    if not np.allclose(fitted, real["fitted"], rtol=0, atol=1e-9 * scale * max(1.0, min(cond, 1e6))):
+        ck.violation("full-fitted-not-recomposed-by-label", "fitted_data is not the sum over the label pairs (G, L) of "
+                     "clp.sel(global_clp_label=G, clp_label=L) x global_matrix.sel(G) x matrix.sel(L)",
+                     {**case, "max_abs_difference": float(np.max(np.abs(fitted - real["fitted"])))})
+        return None
+    if not np.allclose(data - real["fitted"], real["res"], rtol=0, atol=1e-9 * scale):
+        ck.violation("full-residual-not-data-minus-fitted", "residual != data - fitted_data for a full-model dataset", case)
+        return None
+    if cond < 1e6:
+        # least squares: the weighted residual is orthogonal to every column of the full matrix (by label pair)
+        cols = full_matrix_by_pair(gcols, mcols, any3, n_model, n_global, weight)
+        r = real["wres"].T.reshape(-1)
+        rn = max(1.0, float(np.linalg.norm(r)))
+        for k, c in cols.items():
+            if abs(float(c @ r)) > 1e-8 * max(1.0, float(np.linalg.norm(c))) * rn * max(1.0, cond):
+                ck.violation("full-residual-not-orthogonal", f"the residual of a full-model dataset is not orthogonal to the column of the "
+                             f"label pair {k}", {**case, "pair": list(k)})
+                return None
+    if reference is not None and cond < 1e6:
+        tol = 1e-9 * max(1.0, cond)
+        for g in real["gl"]:
+            if g not in reference["G"] or not np.array_equal(reference["G"][g], real["G"][g]):
+                ck.violation("full-twin-global-matrix", f"global_matrix under {g!r} changes with the declaration order", {**case, "label": g})
+                return None
+        for k, v in real["clp"].items():
+            if k not in reference["clp"] or not close(v, reference["clp"][k], tol):
+                ck.violation("full-twin-clp", f"clp under the label pair {k} changes with the declaration order of the (global) "
+                             f"megacomplexes: {reference['clp'].get(k)} vs {v}", {**case, "pair": list(k)})
+                return None
+        if not close(real["res"], reference["res"], tol) or not close(real["fitted"], reference["fitted"], tol):
+            ck.violation("full-twin-fit", "residual / fitted_data of a full-model dataset change with the declaration order", case)
+            return None
+
+    # ---- correspondence: the Lean model of the full-model path, by label ----------------------------------------------
+    def judge(ans):
+        a = ans[0]
+        if not a.startswith("full "):
+            ck.disagree("full-model-answer", f"model answered {a[:80]!r}", case)
+            return
+        mgl, gbody, mml, mbody, ma, my, sol = core.parse_tree(a[5:])
+        mgl, mml = [core.dec(x) for x in mgl], [core.dec(x) for x in mml]
+        if sorted(mgl) != sorted(real["gl"]) or sorted(mml) != sorted(real["ml"]):
+            ck.disagree("full-labels", f"labels: implementation {real['gl']} x {real['ml']}, model {mgl} x {mml}", case)
+            return
+        if gbody[0] != "d2":
+            ck.disagree("full-global-rank", "model: global matrix is not 2-D", case)
+            return
+        gfc = frac_cols(mgl, "d2", [[Fraction(x) for x in row] for row in gbody[1]])
+        for g in real["gl"]:
+            if not exact_equal(gfc[g], real["G"][g]):
+                ck.disagree("full-global-column", f"global_matrix under {g!r} differs between implementation and model", {**case, "label": g})
+                return
+        if mbody[0] == "d2":
+            mfc = frac_cols(mml, "d2", [[Fraction(x) for x in row] for row in mbody[1]])
+        else:
+            mfc = frac_cols(mml, "d3", [[[Fraction(x) for x in row] for row in sl] for sl in mbody[1]])
+        for l in real["ml"]:
+            if not exact_equal(mfc[l], real["M"][l]):
+                ck.disagree("full-matrix-column", f"matrix under {l!r} differs between implementation and model", {**case, "label": l})
+                return
+        # the model's full matrix against the statement, by label pair (exact)
+        cols = full_matrix_by_pair(gcols, mcols, any3, n_model, n_global, weight)
+        for j, g in enumerate(mgl):
+            for k, l in enumerate(mml):
+                mc = [Fraction(row[j * len(mml) + k]) for row in ma]
+                if [Fraction(float(x)) for x in cols[(g, l)]] != mc:
+                    ck.disagree("full-kron-column", f"model: column of the pair ({g}, {l}) of the full matrix is not weight x global x model", case)
+                    return
+        if sol == "unsolvable":
+            if cond < 1e6:
+                ck.disagree("full-unsolvable", "model cannot solve a well-conditioned full-model problem", case)
+            return
+        ck.count("F:solved-in-model")
+        mc_, mr, pairs = sol
+        if cond < 1e6:
+            tol = 1e-9 * max(1.0, cond)
+            for j, g in enumerate(mgl):
+                for k, l in enumerate(mml):
+                    if pairs[j][k] == "keyerror" or not close(float(Fraction(pairs[j][k])), real["clp"][(g, l)], tol):
+                        ck.disagree("full-clp-by-pair", f"clp under the pair ({g}, {l}): implementation {real['clp'][(g, l)]}, model "
+                                    f"fullClpAt {pairs[j][k]}", {**case, "pair": [g, l]})
+                        return
+            mres = np.array([float(Fraction(x)) for x in mr]).reshape(n_global, n_model).T
+            if not close(mres, real["wres"], tol):
+                ck.disagree("full-residual", "(weighted) residual differs between implementation and model", case)
+                return
+        if mgl != real["gl"] or mml != real["ml"]:
+            ck.diagnostic("full-model label order differs (by-label content equal)", {"impl": [real["gl"], real["ml"]], "model": [mgl, mml]})
+
+    ax = core.rats([float(i + 1) for i in range(n_global)])
+    wt = frac_mat(weight) if weight is not None else "none"
+    line = (f"fullmodel {ax} {frac_mat(case['data'])} {wt} {core.lst(mc_line(mc) for mc in case['mcs'])} "
+            f"{core.lst(mc_line(mc) for mc in case['gmcs'])}")
+    # `fullClpAt` (reshape + two coordinate look-ups) on the REAL reported clp array, incl. a KeyError probe
+    raw = real["clp_raw"].reshape(-1)
+    probes = [(real["gl"][0], real["ml"][-1]), (real["gl"][-1], real["ml"][0]), (real["ml"][0], real["gl"][0])]
+    plines = [f"fullclp {core.strs(real['gl'])} {core.strs(real['ml'])} {core.rats(raw.tolist())} {core.enc(g)} {core.enc(l)}" for g, l in probes]
+
+    def judge_all(ans):
+        judge(ans[:1])
+        for (g, l), a in zip(probes, ans[1:]):
+            ck.count("F:clp-sel-probes")
+            want = real["clp"].get((g, l)) if (g in real["gl"] and l in real["ml"]) else None
+            got = Fraction(a[4:]) if a.startswith("rat ") else None
+            if (want is None) != (got is None) or (want is not None and Fraction(want) != got):
+                ck.disagree("full-clp-sel", f"clp.sel(global_clp_label={g!r}, clp_label={l!r}) = {want}, model fullClpAt on the same "
+                            f"array: {a}", case)
+                return
+    batch.add([line] + plines, judge_all)
+    return real
+
+
+def rand_full_case(rng):
+    for _ in range(200):
+        n_model, n_global = rng.randint(3, 4), rng.randint(2, 4)
+        mcs = rand_table_mcs(rng, rng.choice([1, 2, 2, 3]), n_model, n_global, ["s1", "s2", "s3", "s10"])
+        for mc in mcs:
+            if len(mc["labels"]) > 2:
+                mc["labels"] = mc["labels"][:2]
+                mc["base"] = np.asarray(mc["base"])[..., :2].tolist()
+        gmcs = []
+        for _g in range(rng.choice([1, 2, 2, 3])):
+            labels = rng.sample(["g1", "g2", "s1", "g10"], rng.randint(1, 2))
+            base = [[float(rng.randint(-3, 5)) * rng.choice([1.0, 1.0, 0.5]) for _l in labels] for _r in range(n_global)]
+            gmcs.append({"labels": labels, "base": base, "scale": rng.choice([None, None, 2.0, 0.5, 3.0, -1.0])})
+        if any(mc["scale"] is not None for mc in gmcs):
+            for mc in gmcs:
+                if mc["scale"] is None:
+                    mc["scale"] = 1.0
+        case = {"kind": "full-table", "n_model": n_model, "n_global": n_global, "mcs": mcs, "gmcs": gmcs,
+                "data": [[float(rng.randint(-8, 8)) * rng.choice([1.0, 0.5]) for _g in range(n_global)] for _m in range(n_model)],
+                "weight": [[rng.choice([1.0, 2.0, 0.5]) for _g in range(n_global)] for _m in range(n_model)] if rng.random() < 0.3 else None}
+        n_pairs = len({l for mc in mcs for l in mc["labels"]}) * len({l for mc in gmcs for l in mc["labels"]})
+        n_par = 1 + sum(1 for mc in mcs + gmcs if mc.get("scale") is not None)
+        if n_pairs + n_par < n_model * n_global and full_conditioning(case) < 1e3:
+            return case
+    raise core.HarnessError("no well-conditioned full-model table case generated")
+
+
+def permute_full_case(case, m_order, m_lp, g_order, g_lp):
+    return {**case, "mcs": permute_table_mcs(case["mcs"], m_order, m_lp), "gmcs": permute_table_mcs(case["gmcs"], g_order, g_lp)}
+
+
+def stream_full_tables(ck, batch):
+    rng = ck.rng
+    n_cfg = ck.n(10, 40)
+    twins = 0
+    for ci in range(n_cfg):
+        case = rand_full_case(rng)
+        base = check_full_table(ck, batch, case, "generated")
+        if ci < 2:
+            ck.sample({"stream": "F", "mcs": case["mcs"], "gmcs": case["gmcs"]})
+        if base is None:
+            continue
+        ident = lambda mcs: tuple(tuple(range(len(mc["labels"]))) for mc in mcs)
+        g_orders = list(itertools.permutations(range(len(case["gmcs"]))))
+        m_orders = list(itertools.permutations(range(len(case["mcs"]))))
+        g_lps = list(itertools.product(*[list(itertools.permutations(range(len(mc["labels"])))) for mc in case["gmcs"]]))
+        m_lps = list(itertools.product(*[list(itertools.permutations(range(len(mc["labels"])))) for mc in case["mcs"]]))
+        combos = [(mo, ml, go, gl) for go in g_orders for gl in g_lps for mo in m_orders for ml in m_lps]
+        combos = [c for c in combos if c != (m_orders[0], ident(case["mcs"]), g_orders[0], ident(case["gmcs"]))]
+        if ck.quick or len(combos) > 60:
+            # every order of the global megacomplexes with every order of their labels; model side sampled
+            chosen = [(rng.choice(m_orders), rng.choice(m_lps), go, gl) for go in g_orders for gl in g_lps][:ck.n(8, 40)]
+            chosen += rng.sample(combos, min(len(combos), ck.n(3, 20)))
+        else:
+            chosen = combos
+        for mo, ml_, go, gl_ in chosen:
+            twin = permute_full_case(case, mo, ml_, go, gl_)
+            check_full_table(ck, batch, twin, "permutation", reference=base)
+            twins += 1
+        if len(batch.jobs) > 200:
+            batch.flush(ck)
+    batch.flush(ck)
+    ck.extra["full_model_tables"] = {"configurations": n_cfg, "permuted_twins": twins,
+                                     "permuted": "order of the global megacomplexes (all), order of the labels inside each global megacomplex (all), "
+                                                 "order of the megacomplexes and of their labels (sampled in the quick tier)"}
+
+
+# ======================================================================================================
+# stream G — full models of builtin megacomplexes (decay x spectral, spectral x decay, baseline on either side)
+# ======================================================================================================
+def check_full_builtin(ck, batch, spec, tag, what=None):
+    """(1) matrix / global_matrix of the full-model dataset are, by label, the dataset matrices of its two halves (the
+    dataset without global megacomplexes; the transposed dataset made of the global megacomplexes); (2) both halves go
+    through the pipeline check (label tables, columns, combination against the Lean model and the by-label statement);
+    (3) permuted twin of the whole model on the real code"""
+    tkey = "+".join(spec_types(spec))
+    for dlabel, d in spec["dataset"]:
+        if not d.get("global_megacomplex"):
+            continue
+        case = {"kind": "full-builtin", "spec": spec, "dataset": dlabel}
+        ck.case(("full-builtin", json.dumps(case, sort_keys=True)), True)
+        ck.count("G:" + tag)
+        ck.count(f"G:{d.get('model_dim', 'time')}-x-{d.get('global_dim', 'spectral')}")
+        ck.count(f"G:global-megacomplexes={len(d['global_megacomplex'])}")
+        ck.count("G:global-scaled" if d.get("global_megacomplex_scale") else "G:global-unscaled")
+        for n in d["global_megacomplex"]:
+            ck.count("G:global-type=" + dict(spec["megacomplex"])[n]["type"])
+        ck.oracle_evals += 1
+        mh, gh = M.half_specs(spec, dlabel)
+        try:
+            ml, mm = M.dataset_matrices(spec)[dlabel]
+            gl, gm = M.global_matrices(spec)[dlabel]
+            hml, hmm = M.dataset_matrices(mh)[dlabel]
+            hgl, hgm = M.dataset_matrices(gh)[dlabel]
+        except Exception as e:
+            ck.violation(f"matrix-raises:{type(e).__name__}:{tkey}", f"calculating the matrices of a full-model dataset raised "
+                         f"{type(e).__name__}: {str(e)[:160]}", case)
+            continue
+        ck.count("G:model-rank=3" if mm.ndim == 3 else "G:model-rank=2")
+        if gm.ndim != 2:
+            ck.violation("global-matrix-rank:" + tkey, f"the global matrix has {gm.ndim} dimensions", case)
+            continue
+        for name, (la, xa), (lb, xb) in (("matrix", (ml, mm), (hml, hmm)), ("global_matrix", (gl, gm), (hgl, hgm))):
+            ca, cb = np_cols(la, xa), np_cols(lb, xb)
+            if sorted(la) != sorted(lb) or any(not np.array_equal(ca[l], cb[l]) for l in la):
+                ck.violation(f"full-{name}-not-its-megacomplexes:" + tkey,
+                             f"dataset {dlabel!r}: {name} of the full model is not, by label, the combined matrix of its "
+                             f"{'global ' if name == 'global_matrix' else ''}megacomplexes evaluated on the "
+                             f"{'global' if name == 'global_matrix' else 'model'} axis", case)
+        check_pipeline(ck, batch, mh, tag + ":model-half")
+        check_pipeline(ck, batch, gh, tag + ":global-half")
+    check_twin(ck, spec, tag + ":full-model", what=what)
+
+
+def stream_full_builtin(ck, batch):
+    rng = ck.rng
+    kinds = [None, {"megacomplexes"}, {"shapes", "compartments", "megacomplexes"}, {"sections", "k_entries", "k_matrices", "compartments"}]
+    for i in range(ck.n(14, 200)):
+        spec = M.gen_full_spec(rng, ["time-x-spectral", "spectral-x-time"][i % 2])
+        check_full_builtin(ck, batch, spec, "generated", what=kinds[i % len(kinds)])
+        if i < 1:
+            ck.sample({"stream": "G", "megacomplex": spec["megacomplex"],
+                       "dataset": [[l, {k: v for k, v in d.items() if k != "data"}] for l, d in spec["dataset"]]})
+        if len(batch.jobs) > 200:
+            batch.flush(ck)
+            flush_post(ck, batch)
+    batch.flush(ck)
+    flush_post(ck, batch)
+
+
+# ======================================================================================================
 # known-finding witnesses replayed on the real code on every run
 # ======================================================================================================
 D4_WITNESS = {
@@ -1642,6 +2300,12 @@ def run_case(ck, batch, case):
         check_pipeline(ck, batch, case["spec"], "corpus")
     elif kind == "d4-witness":
         replay_d4_witness(ck, batch)
+    elif kind == "full-builtin":
+        check_full_builtin(ck, batch, case["spec"], "corpus")
+    elif kind == "full-table":
+        base = check_full_table(ck, batch, case, "corpus")
+        if case.get("twin") is not None and base is not None:
+            check_full_table(ck, batch, {**case["twin"], "kind": "full-table"}, "corpus", reference=base)
     else:
         raise core.HarnessError(f"unknown case kind {kind!r}")
 
@@ -1669,8 +2333,12 @@ def run(ck):
     flush_post(ck, batch)
     stream_combine(ck, batch)
     stream_table_datasets(ck, batch)
+    stream_full_tables(ck, batch)
+    stream_full_builtin(ck, batch)
+    stream_introspection(ck, batch)
     stream_pipeline(ck, batch)
     stream_exhaustive_permutations(ck)
+    stream_linked(ck, batch)
     stream_twins(ck, batch)
     ck.exhaustive = False
 
@@ -1687,6 +2355,11 @@ def search(ck):
         if ck.violations:
             break
     stream_table_datasets(ck, batch)
+    if not ck.violations:
+        stream_full_tables(ck, batch)
+        stream_full_builtin(ck, batch)
+        stream_introspection(ck, batch)
+        stream_linked(ck, batch)
     batch.flush(ck)
     flush_post(ck, batch)
 
